@@ -488,6 +488,9 @@ CLAIMED["C15"]["text"] += (" Round 8: KF-C15-HEADER-POSITION and KF-C15-PARTIAL-
                             "frame (a fragment the write call did not report; iolog verdict ranges= vs c15lib.torn_regions).")
 CLAIMED["C05"]["text"] += (" Round 8: 'a whole number of frames' holds under failing I/O as well (KF-C15-PARTIAL-FRAME repaired: Sf.C15.position_matches_count / position_matches_count_write, every oracle; "
                             "SfProps/C15.lean now also belongs to C05).")
+CLAIMED["C14"]["text"] += (" Round 8: psf->file.seek_failed on the three routes (lean/SfModel/RoutesLatch.lean over Sf.Routes; `sfmodel routes` runs the shim cases on it): SfProps/C14Latch.lean -- fwriteL_latched "
+                            "(with the flag set psf_fwrite transfers nothing and touches neither file, store nor shim: the same answer on every route), fseekL_obs / fseekL_vio_latch / fseekL_fd_latch / fseekL_pipe_keeps, "
+                            "runL_eq_run_of_clear (a run in which no seek fails is a run of Sf.Routes: routes_equivalent and the other C14 theorems hold for the repaired code on such runs).")
 
 def main():
     checks = []
